@@ -1,6 +1,6 @@
 (* Correspondence for C13 (uamiv): Memmap reader vs record reader on the same reference-encoded file,
    plus the translated seek arithmetic against the offsets at which the library actually seeks. *)
-From PNC Require Export Base.Util Base.Words Gen.Camx Model.Uamiv Model.One3d Model.TempHp.
+From PNC Require Export Base.Util Base.Words Gen.Camx Model.Uamiv Model.One3d Model.TempHp Model.Wind.
 From PNC Require Import Corr.C09.
 Local Open Scope Z_scope.
 
@@ -170,7 +170,45 @@ Definition hregion13 (c : hcase13) : nat :=
   let ds := map hs_date (h_steps (h13_c c)) in
   if Z.of_nat (length ds) <? 2 then 11%nat else if year_cross ds then 13%nat else 0%nat.
 
+(* ---- wind: Memmap reader vs record reader ---------------------------------------------------------------- *)
+Record wcase13 := WCase13 {
+  w13_c : wind; w13_ref : list word;
+  w13_mm_status : Z; w13_mm : wview;          (* 0 = read, 1 = raised, 2 = did not return *)
+  w13_rd_ok : bool; w13_rd : wview; w13_rd_timeout : bool;
+  w13_self_ok : bool; w13_self : wr_self;     (* the record reader's fields as it computed them *)
+  w13_seeks : list (Z * Z * Z * Z * Z)        (* (date, time, k, duv, byte position) of getArray, in order *)
+}.
+Definition wseek_ok (s : wr_self) (ws : list word) (ncell : Z) (x : (Z * Z * Z * Z * Z) * list word) : bool :=
+  let '((d, t, k, duv, pos), cells) := x in
+  (wr_recordposition s d t k duv =? pos) && zlist_eqb (w_cells_at ws pos ncell) cells.
+(* F: Memmap model predicts the library (read / raise / no return); every seek of the record reader's getArray is at the
+   TRANSLATED position and the cells it presents are the words found there (per step: the U layers, then the V layers) *)
+Definition wcheckF13 (c : wcase13) : bool :=
+  let size := 4 * Z.of_nat (length (w13_ref c)) in
+  zlist_eqb (w_enc (w13_c c)) (w13_ref c)
+  && match w_mm_read (w_ny (w13_c c)) (w_nx (w13_c c)) (w13_ref c) size with
+     | WOk v => (w13_mm_status c =? 0) && wview_eqb v (w13_mm c)
+     | WErr => w13_mm_status c =? 1
+     | WHang => w13_mm_status c =? 2
+     end
+  && (negb (w13_self_ok c)
+      || forallb (wseek_ok (w13_self c) (w13_ref c) (w_nx (w13_c c) * w_ny (w13_c c)))
+                 (combine (w13_seeks c)
+                          (concat (map (fun p => fst p ++ snd p) (combine (wv_u (w13_rd c)) (wv_v (w13_rd c))))))).
+Definition wcheckS13 (c : wcase13) : bool :=
+  negb (w13_rd_timeout c) && negb (w13_mm_status c =? 2)
+  && (if (w13_mm_status c =? 0) && w13_rd_ok c then wview_eqb (w13_mm c) (w13_rd c) else true).
+(* region 11: single-step file (the record reader never returns); region 12: 1x1 grid; region 13: year crossing;
+   region 19: more steps than the Memmap reader's step count can take (12 * steps >= body + 4) *)
+Definition wregion13 (c : wcase13) : nat :=
+  let ds := map ws_date (w_steps (w13_c c)) in
+  if w_nx (w13_c c) * w_ny (w13_c c) =? 1 then 12%nat
+  else if Z.of_nat (length ds) <? 2 then 11%nat
+  else if year_cross ds then 13%nat
+  else if w_body_bytes (w13_c c) + 4 <=? 12 * Z.of_nat (length ds) then 19%nat else 0%nat.
+
 Inductive case_t :=
+| WC (c : wcase13)
 | UC (c : ucase13)
 | OC (c : ocase13)
 | TC (c : tcase13)
@@ -182,4 +220,5 @@ Definition check (c : case_t) : verdict :=
   | OC c => (ocheckF13 c, ocheckS13 c, oregion13 c)
   | TC c => (tcheckF13 c, tcheckS13 c, tregion13 c)
   | HC c => (hcheckF13 c, hcheckS13 c, hregion13 c)
+  | WC c => (wcheckF13 c, wcheckS13 c, wregion13 c)
   end.
